@@ -25,7 +25,7 @@ COQ = {
     "imports": "From BV Require Import Lib.Bytes Lib.Dag Model.OsUtils Model.Directive Model.BundleSet.",
 }
 RUST_PACKAGES = ["patch-py"]
-SHARD = 120
+SHARD = 300
 META = {
     "level": "proof",
     "title": "Bundles and merge directives reproduce the revisions they carry",
@@ -297,8 +297,68 @@ def _codec_cases(rng, tier):
                 yield {"k": "name", "kind": kind, "r": r, "f": f}
 
 
+def _hist_cases(rng, tier):
+    from props import _c40_hist as H
+    quick = tier == "quick"
+    nh = 7 if quick else 60
+    for hi in range(nh):
+        fmt = rng.choice(["2a", "2a", "2a", "pack-0.92", "pack-0.92"] + ([] if quick else ["1.14-rich-root"]))
+        n = rng.choice([5, 7, 9] if quick else [5, 8, 10, 13])      # > 10 revisions: RevisionInstaller's LRUCache(10)
+        if hi == 1:
+            n = 13
+        spec = H.gen_spec(rng, n, fmt, odd=rng.random() < 0.15, ghosts=rng.random() < 0.2,
+                          big=(not quick and rng.random() < 0.1), ml_props=rng.random() < 0.08)
+        g = spec["g"]
+        pairs = []
+        for tgt in range(n):
+            anc = sorted(H.present_ancestors(g, [tgt]) - {tgt})
+            for base in [None] + anc:
+                pairs.append((base, tgt))
+            others = [b for b in range(n) if b not in anc and b != tgt]
+            if others:
+                pairs.append((rng.choice(others), tgt))                 # a base that is not an ancestor
+        rng.shuffle(pairs)
+        has_ghost = any(p >= n for ps in g for p in ps)
+        bfmts = ["4", "4", "0.9"] if fmt != "pack-0.92" else ["4", "0.9", "0.9", "0.8"]
+        for base, tgt in pairs[: (10 if quick else 40)]:
+            bfmt = rng.choice(bfmts)
+            if has_ghost and bfmt != "4" and any(p >= n for r in H.bundled_revs(spec, base, tgt) for p in g[r]):
+                bfmt = "4"                                             # 0.8/0.9 have no notion of ghosts
+            extra = [rng.randrange(n)] if rng.random() < 0.2 else []
+            dfmt = None
+            if fmt == "1.14-rich-root" and rng.random() < 0.3:
+                dfmt = "2a"
+            yield {"k": "bundle", "h": spec, "base": base, "tgt": tgt, "bfmt": bfmt, "extra": extra,
+                   "stream": rng.random() < 0.5, "dfmt": dfmt}
+        for base, tgt in pairs[:(4 if quick else 12)]:
+            bfmt = rng.choice(["4", "0.9"])
+            yield {"k": "btamper", "h": spec, "base": base, "tgt": tgt, "bfmt": bfmt, "stream": rng.random() < 0.5,
+                   "pos": rng.choice([rng.randrange(10 ** 6), rng.randrange(40), 10 ** 6 - 1 - rng.randrange(40)]),
+                   "byte": rng.choice([0, 10, 32, 48, 65, 97, 255, rng.randrange(256)])}
+        for _ in range(2 if quick else 5):
+            rel = [(a, b) for a in range(n) for b in range(n)
+                   if H.present_ancestors(g, [a]) & H.present_ancestors(g, [b])]
+            submit, tgt = rng.choice(rel)
+            modes = ["2 bundle patch", "2 bundle patch", "2 bundle", "2 patch public"]
+            if fmt == "pack-0.92":
+                modes += ["1 bundle", "1 diff public"]
+            yield {"k": "merge", "h": spec, "submit": submit, "tgt": tgt, "mode": rng.choice(modes),
+                   "msg": rng.choice([None, "merge it", "m\u00e9ssage"])}
+
+
 def cases(rng, tier):
+    yield from _hist_cases(rng, tier)
     yield from _codec_cases(rng, tier)
+
+
+def setup(scratch_dir):
+    from props import _c40_hist as H
+    H.set_scratch(scratch_dir)
+
+
+def teardown():
+    from props import _c40_hist as H
+    H.cleanup()
 
 
 # ---------------------------------------------------------------------------------------------
@@ -445,7 +505,41 @@ def impl(inp):
         return _impl_verify(inp)
     if k == "name":
         return _impl_name(inp)
+    if k in ("bundle", "btamper", "merge"):
+        from props import _c40_hist as H
+        out = {"bundle": H.run_bundle, "btamper": H.run_btamper, "merge": H.run_merge}[k](inp)
+        _outcome[_key(inp)] = out
+        return out
     raise ValueError(k)
+
+
+_outcome = {}
+
+
+def _key(inp):
+    import json
+    from props import _c40_hist as H
+    return json.dumps(H._jsonable(inp), sort_keys=True)
+
+
+def _hist_failed(o):
+    return any(x in o for x in ("build", "write_error", "install_error", "directive_error", "merge_error"))
+
+
+def impl_obs(inp, obs):
+    """the part of the observation the model predicts"""
+    k = inp["k"]
+    if k not in ("bundle", "btamper", "merge"):
+        return obs
+    if _hist_failed(obs):
+        return Err("Failed")
+    if k == "bundle":
+        return [obs["ids"], obs["after"], obs["fetch"]]
+    if k == "merge":
+        return obs["ids"]
+    if obs["rejected"] is not None:
+        return [True, obs["after"] if inp["bfmt"] == "4" else None]
+    return [False, obs["after"]]
 
 
 # ---------------------------------------------------------------------------------------------
@@ -476,6 +570,25 @@ def model_term(inp):
         return "run_verify %s %s" % (coq_bytes(inp["stored"]), coq_bytes(inp["calc"]))
     if k == "name":
         return "run_name %s %s %s" % (coq_bytes(inp["kind"].encode()), _ob(inp["r"]), _ob(inp["f"]))
+    if k in ("bundle", "btamper", "merge"):
+        import daglib
+        o = _outcome.get(_key(inp))
+        if o is None:
+            o = impl(inp)
+        if _hist_failed(o):
+            return '(OE "Failed"%string)'      # nothing to predict: the oracle has already judged the failure
+        g = "(%s)%%nat" % daglib.coq_dag(inp["h"]["g"])
+        nat_list = lambda l: coq_list([coq_nat(x) for x in l])
+        if k == "bundle":
+            return "run_bundle %s %s %s %s" % (g, coq_option(inp["base"], coq_nat), coq_nat(inp["tgt"]), nat_list(inp["extra"]))
+        if k == "merge":
+            return "run_closure %s %s" % (g, nat_list([inp["submit"], inp["tgt"]]))
+        base = [] if inp["base"] is None else [inp["base"]]
+        if o["rejected"] is not None:
+            if inp["bfmt"] == "4":
+                return "OL [OT \"True\"%%string; run_closure %s %s]" % (g, nat_list(base))
+            return 'OL [OT "True"%string; ON]'
+        return "OL [OT \"False\"%%string; run_closure %s %s]" % (g, nat_list(base + [inp["tgt"]]))
     raise ValueError(k)
 
 
@@ -608,8 +721,61 @@ def _explain(d, got, from_file):
     return used
 
 
+def _expected_after(inp):
+    from props import _c40_hist as H
+    seeds = [inp["tgt"]] + ([inp["base"]] if inp["base"] is not None else []) + list(inp.get("extra", []))
+    return sorted(H.present_ancestors(inp["h"]["g"], seeds))
+
+
+def _oracle_hist(inp, obs):
+    from props import _c40_hist as H
+    k = inp["k"]
+    if "build" in obs:
+        return None                          # the history could not be materialised (not the code under test)
+    if k == "bundle":
+        if "write_error" in obs:
+            return "write_bundle failed: %s" % obs["write_error"]
+        if "install_error" in obs:
+            return "installing the bundle failed: %s" % obs["install_error"]
+        if obs["problem"]:
+            return "installed revision differs from the original: %s" % obs["problem"]
+        if obs["ids"] != H.bundled_revs(inp["h"], inp["base"], inp["tgt"]):
+            return "bundled revisions %r, expected %r" % (obs["ids"], H.bundled_revs(inp["h"], inp["base"], inp["tgt"]))
+        if obs["after"] != _expected_after(inp) or obs["after"] != obs["fetch"]:
+            return "repository holds %r after install, %r after fetch, expected %r" % (obs["after"], obs["fetch"], _expected_after(inp))
+        return None
+    if k == "btamper":
+        if "write_error" in obs:
+            return None                      # judged by the bundle case of the same pair
+        if obs["problem"]:
+            return "tampered bundle (byte %d of %d): %s" % (obs["where"], obs["len"], obs["problem"])
+        if obs["rejected"] is not None:
+            if inp["bfmt"] == "4" and obs["after"] != obs["before"]:
+                return "refused v4 bundle left revisions behind: %r -> %r" % (obs["before"], obs["after"])
+            return None
+        if obs["after"] != _expected_after(inp):
+            return "tampered bundle accepted but installed %r instead of %r" % (obs["after"], _expected_after(inp))
+        return None
+    if k == "merge":
+        if "directive_error" in obs:
+            return "merge directive could not be produced: %s" % obs["directive_error"]
+        if "merge_error" in obs:
+            return "merging from the directive failed: %s %s" % (obs["merge_error"], obs.get("detail", ""))
+        if obs["problem"]:
+            return "merge from directive differs from merge from branch: %s" % obs["problem"]
+        if not obs["same_fields"]:
+            return "directive fields changed by to_lines/from_lines: %r" % (obs["fields"],)
+        want = "verified" if (inp["mode"].startswith("2") and "patch" in inp["mode"]) else "inapplicable"
+        if obs["verified"] != want:
+            return "patch verification says %s, expected %s" % (obs["verified"], want)
+        return None
+    return None
+
+
 def oracle(inp, obs):
     k = inp["k"]
+    if k in ("bundle", "btamper", "merge"):
+        return _oracle_hist(inp, obs)
     if k == "codec":
         if not _in_domain(inp):
             return None                      # refused or unspecified input: nothing promised
@@ -664,6 +830,22 @@ def finding_matches(fid, inp, obs, why):
     """exact classes: a case matches a finding only if EVERY deviation it shows is the documented
     effect of a known finding (and this finding is one of them)"""
     k = inp["k"]
+    if k in ("bundle", "btamper", "merge"):
+        from props import _c40_hist as H
+        if k != "bundle" or inp["bfmt"] not in ("0.8", "0.9"):
+            return False
+        spec, base, tgt = inp["h"], inp["base"], inp["tgt"]
+        if fid == "C40-v09-chk-dir-rename":
+            return (obs.get("write_error") == "NoSuchFile" and spec["fmt"] in ("2a",)
+                    and H.dir_rename_hits_chk(spec, base, tgt))
+        err = obs.get("install_error")
+        if fid == "C40-v09-multiline-revprop":
+            return err in ("TestamentMismatch", "MalformedHeader") and H.has_multiline_prop(spec, H.bundled_revs(spec, base, tgt))
+        if fid == "C40-v09-rename-arrow-prefix":
+            return err in ("TestamentMismatch", "TypeError", "KeyError", "NoSuchId", "NoSuchFile") and H.arrow_rename(spec, base, tgt)
+        if fid == "C40-v09-action-wrap-splits-utf8":
+            return err == "UnicodeDecodeError" and H.non_ascii(spec)
+        return False
     if k == "codec":
         if isinstance(obs, Err):
             return False
@@ -704,6 +886,10 @@ def finding_matches(fid, inp, obs, why):
 
 def nontrivial(inp, obs):
     k = inp["k"]
+    if k in ("bundle", "btamper", "merge"):
+        if _hist_failed(obs):
+            return False
+        return len(obs.get("ids", [1, 2])) > 1 if k == "bundle" else True
     if k == "codec":
         return not isinstance(obs, Err) and (inp["msg"] is not None or inp["patch"] is not None)
     if k == "stanza":
@@ -716,6 +902,15 @@ def distribution(inputs, observations):
     for inp, o in zip(inputs, observations):
         key = inp["k"]
         out[key] = out.get(key, 0) + 1
+        if key in ("bundle", "btamper", "merge"):
+            sub = [key, inp.get("bfmt", inp.get("mode", "")), inp["h"]["fmt"]]
+            for f in ("build", "write_error", "install_error", "directive_error", "merge_error"):
+                if f in o:
+                    sub.append(f + "=" + str(o[f]))
+            if key == "btamper" and "rejected" in o:
+                sub.append("rejected" if o["rejected"] else "accepted")
+            out[":".join(sub)] = out.get(":".join(sub), 0) + 1
+            continue
         if isinstance(o, Err):
             out[key + ":" + str(o)] = out.get(key + ":" + str(o), 0) + 1
         if key == "stanza" and not isinstance(o, Err):
